@@ -136,9 +136,10 @@ impl RawMemoryFreeList {
     }
 
     fn current_capacity(&self) -> i32 {
-        let list_blocks = conversions::bytes_to_pages_up(self.high_water - self.base) as i32
-            / self.pages_per_block;
-        self.units_in_first_block() + (list_blocks - 1) * self.units_per_block()
+        // The last block may have been clamped to `limit` (see `raise_high_water`), so compute
+        // the capacity from the mapped bytes rather than from the number of whole blocks.
+        let mapped_units = ((self.high_water - self.base) >> LOG_BYTES_IN_UNIT) as i32;
+        mapped_units - self.heads - 1
     }
 
     pub fn grow_freelist(&mut self, units: i32) -> bool {
@@ -216,7 +217,7 @@ impl RawMemoryFreeList {
             "Attempt to grow FreeList beyond limit"
         );
         if self.high_water + grow_extent > self.limit {
-            grow_extent = self.high_water - self.limit;
+            grow_extent = self.limit - self.high_water;
         }
         self.mmap(self.high_water, grow_extent);
         self.high_water += grow_extent;
